@@ -103,6 +103,7 @@ def run(ctx, chk):
                        "uses %s, not bitvec's checked Index" % key, b["span"])
             nforms += 1
         kstorage.unchecked_scan(chk, cfg)
+        shadowing(chk, cfg)
         # ---- repr(transparent) ----
         for adt_path in ("seq::slice::SeqSlice", "seq::Seq", "seq::array::SeqArray", "kmer::Kmer"):
             a = bio.adts.get(adt_path)
@@ -169,3 +170,52 @@ def run(ctx, chk):
                     want = P(1) if nm == "SeqSlice" else ("seqview", P(1))
                     chk.ob("R-view", nm + "::as_ref", r.ret == want, "as_ref = %s, expected the deref view of self" % show(r.ret), b["span"])
     chk.floor("index rows over all configurations", nforms, 7 * len(chk.configs))
+
+
+# methods that owners (Seq, SeqArray, Kmer) are allowed to define although SeqSlice has one of the same name, with the row that covers them
+SHADOW_OK = {
+    ("kmer::Kmer", "len"): "returns K (C08/C09 rows: Kmer::len)",
+    ("kmer::Kmer", "is_empty"): "constant false, K > 0",
+    ("seq::Seq", "contains"): "C12 G-contains row (Seq<Iupac>)",
+    ("seq::array::SeqArray", "contains"): "C12 G-contains row (SeqArray<Iupac>)",
+}
+
+
+def shadowing(chk, cfg):
+    """I-shadow: Seq, SeqArray and Kmer reach the slice API through Deref. An inherent method or an Index impl of the same name on
+    the owner would silently take precedence in method resolution; every such definition needs a row of its own."""
+    bio = cfg.bio
+    slice_api = set()
+    for b in bio.bodies:
+        imp = b.get("impl") or {}
+        if b["kind"] == "AssocFn" and not imp.get("trait") and re.match(r"^seq::slice::SeqSlice<", an._strip_lt(imp.get("self_ty") or "")):
+            slice_api.add(b["path"].split("::")[-1])
+    chk.floor("SeqSlice inherent API[%s]" % cfg.name, len(slice_api), 10)
+    n = 0
+    for b in bio.bodies:
+        imp = b.get("impl") or {}
+        if b["kind"] != "AssocFn":
+            continue
+        st = an._strip_lt(imp.get("self_ty") or "")
+        owner = re.match(r"^&?(seq::Seq|seq::array::SeqArray|kmer::Kmer)<", st)
+        if not owner:
+            continue
+        name = b["path"].split("::")[-1]
+        if not imp.get("trait") and name in slice_api:
+            n += 1
+            ok = (owner.group(1), name) in SHADOW_OK
+            chk.ob("I-shadow", "%s::%s" % (owner.group(1), name), ok,
+                   "defines `%s`, which shadows SeqSlice::%s for every caller going through Deref, and has no row" % (name, name), b["span"], kind="unmodelled-shadowing",
+                   sample={"method": "%s::%s" % (owner.group(1), name), "covered_by": SHADOW_OK.get((owner.group(1), name))})
+        if imp.get("trait") in ("std::ops::Index", "std::ops::IndexMut"):
+            chk.fail("I-shadow", "%s for %s" % (imp.get("trait_ref"), st), "unmodelled-shadowing",
+                     "an Index impl on the owner type takes precedence over the checked SeqSlice indexing rows", b["span"])
+    if n == 0:
+        chk.note("I-shadow: no owner method shadows the slice API")
+    # Kmer::len = K, is_empty = false
+    for name, want in (("len", ("cg", "K")), ("is_empty", ("int", 0, "bool"))):
+        bs = an.methods(bio, name, self_re=r"^kmer::Kmer<A, K, S>$", inherent=True)
+        for b in bs:
+            paths, _ = an.analyse(cfg, b)
+            r = [p for p in paths if p.end == "return"]
+            chk.ob("I-shadow/row", "kmer::Kmer::" + name, len(r) == 1 and not r[0].guards and r[0].ret == want, "Kmer::%s = %s" % (name, show(r[0].ret) if r else "?"), b["span"])
